@@ -255,6 +255,8 @@ def _run_scripts(prop, tier, seed, rng, replay, problems, ev, cov, names, discha
         # a replay that does not replay helps nobody.  (Seen twice under heavy machine load with the
         # BLS scheme: an honest QC rejected once in ~600k operations; never reproduced.)
         def reproduces(lines):
+            if os.environ.get('VERIF_NO_CONFIRM'):
+                return True
             for _ in range(3):
                 m1, _ = core.run_driver(model_bin, fam.name, [lines], 300)
                 i1, _ = core.run_driver(impl_bin, fam.name, [lines], 300)
